@@ -214,6 +214,77 @@ class SelectionTask(T.Task):
         return None
 
 
+class SelectionProofTask(T.Task):
+    """UNBOUNDED: BIC.from_bank_code over an ABSTRACT candidate list (any length, any valid BICs): the result is a
+    member; an 8-character one if any, else one with branch XXX if any, else the first; no candidate ->
+    InvalidBankCode.  (pyvc abstract lists: filters are evaluated for one generic element by nested exploration;
+    sorted() is the assumed contract 'a permutation', so its last element is a member.)"""
+    name = "BIC.from_bank_code selection rule (abstract candidate list, all lengths)"
+    skip_cover = True
+
+    def setup(self, I):
+        from pyvc import alist as L
+        from pyvc import alist_hooks
+        alist_hooks.install()
+        self.n = z3.Int("n_candidates")
+        self.cand = z3.Function("candidate", z3.IntSort(), L.Elem)
+        I.assumptions.append(self.n >= 0)
+        j = z3.Int("jv")
+        self.valid = lambda e: z3.Or(L.ElemLen(e) == 8, L.ElemLen(e) == 11)
+        # precondition (contract of candidates_from_bank_code, C04/C17): every candidate is a valid BIC: 8 or 11 long
+        I.assumptions.append(z3.ForAll([j], z3.Implies(z3.And(j >= 0, j < self.n), self.valid(self.cand(j)))))
+        return {}
+
+    def code(self, I, inp):
+        from pyvc import alist as L
+        from schwifty import BIC
+        xs = L.AList(BIC, self.n, lambda j: self.cand(j), name="candidates")
+        xs.valid = self.valid
+        I.contracts["schwifty.bic.BIC.candidates_from_bank_code"] = lambda I2, cls, cc, code: xs
+        I.contracts["schwifty.common.clean"] = CC.clean_contract
+        r = I.call(I.getattr(BIC, "from_bank_code"), ["DE", "K"], {})
+        return ("PICK", r)
+
+    def custom_obligations(self, I, inp, code_paths, cobs):
+        from pyvc import alist as L
+        n, cand = self.n, self.cand
+        j = z3.Int("jq")
+
+        def xxx(e):
+            return z3.And(L.ElemLen(e) == 11, *[L.ElemAt(e, z3.IntVal(8 + k)) == 88 for k in range(3)])
+        any8 = z3.Exists([j], z3.And(j >= 0, j < n, L.ElemLen(cand(j)) == 8))
+        anyx = z3.Exists([j], z3.And(j >= 0, j < n, xxx(cand(j))))
+        out = []
+        for i, (path, o) in enumerate(cobs):
+            pc = path["pc"]
+            if isinstance(o, T.Escape):
+                continue
+            if isinstance(o, T.ExcTag):
+                out.append((f"path {i}: raises {o.name}: only InvalidBankCode, and only when there is no candidate", pc,
+                            z3.And(z3.BoolVal(o.name == "InvalidBankCode"), n == 0)))
+                continue
+            r = o[1]
+            t = getattr(r, "elem_term", None)
+            if t is None:
+                out.append((f"path {i}: the result is not an element of the candidate list", pc, z3.BoolVal(False)))
+                continue
+            out.append((f"path {i}: the chosen BIC is one of the candidates", pc,
+                        z3.Exists([j], z3.And(j >= 0, j < n, cand(j) == t))))
+            out.append((f"path {i}: an 8-character candidate if there is one", pc,
+                        z3.Implies(z3.And(n > 1, any8), L.ElemLen(t) == 8)))
+            out.append((f"path {i}: else one with branch XXX if there is one", pc,
+                        z3.Implies(z3.And(n > 1, z3.Not(any8), anyx), xxx(t))))
+            out.append((f"path {i}: else the first candidate", pc,
+                        z3.Implies(z3.Or(n == 1, z3.And(z3.Not(any8), z3.Not(anyx))), t == cand(z3.IntVal(0)))))
+        return out
+
+    def native_agree(self, inp):
+        return True, None, None
+
+    def sample(self, rnd):
+        return None
+
+
 # ------------------------------------------------------------------------------------------ bundled registry
 def spec_candidates(group):
     prim = [e for e in group if e["primary"]]
@@ -339,7 +410,8 @@ def main(seed, tier):
     if tier == "thorough":
         ks.append(4)
         shapes += ["11,11,11,11", "11,8,11,8"]
-    specs = [("props.c12", "CandidatesTask", (k,)) for k in ks] + [("props.c12", "SelectionTask", (s,)) for s in shapes]
+    specs = [("props.c12", "SelectionProofTask", ())]
+    specs += [("props.c12", "CandidatesTask", (k,)) for k in ks] + [("props.c12", "SelectionTask", (s,)) for s in shapes]
     results = common.run_tasks(specs, seed, tier)
     problems, stats = registry_evaluation()
     results.append(dict(task="bundled registry (exhaustive evaluation)", functions={}, files={}, paths=0, error=None, spec=None,
@@ -350,10 +422,14 @@ def main(seed, tier):
                             secs=0.0, witness={"first": repr(problems[0])[:600]} if problems else None,
                             detail="" if not problems else f"replayed natively: {problems[0]!r}"[:600], kind="vc")]))
     return common.finish(
-        "C12", results, t0, seed, tier, level="exploration",
-        assumptions=["BOUNDED in group size: the selection rule and the candidate order are proved for groups / candidate "
-                     "lists of at most 3 (quick) / 4 (thorough) entries with symbolic contents; the bundled registry has "
-                     "groups of up to 957 entries, which are covered by the exhaustive native evaluation only",
+        "C12", results, t0, seed, tier, level="proof",
+        assumptions=["selection rule of from_bank_code: PROVED for candidate lists of any length (abstract lists: filters "
+                     "evaluated for one generic element, sorted() assumed to return a permutation so that its last "
+                     "element is a member); precondition: every candidate is a valid BIC (8 or 11 characters)",
+                     "candidate order / filter of candidates_from_bank_code: BOUNDED in the group size (<= 3 quick / 4 "
+                     "thorough entries with symbolic contents) - the bundled registry has groups of up to 957 entries, "
+                     "covered by the exhaustive native evaluation; build_index, invertibility and the IBAN-side accessors "
+                     "are evaluated exhaustively on the bundled registry, not proved for arbitrary registries",
                      "sorted() is stable and returns a permutation (assumed; modelled as a stable insertion sort)",
                      "registry entries satisfy well_formed (C17): a non-empty BIC is a valid BIC",
                      "'any registry contents' beyond the bundled data is covered only up to the size bound"],
@@ -363,4 +439,5 @@ def main(seed, tier):
                             "pairs, up to 60 IBANs per country built around listed keys; distinct = distinct keys; plus "
                             "pyvc runs over symbolic groups of bounded size",
                        registry=stats),
-        not_proved_note="bounded in the group size (symbolic contents), exhaustive on the bundled data")
+        not_proved_note="selection rule proved unboundedly; candidate order bounded in the group size; registry-level "
+                        "statements exhaustive on the bundled data")
